@@ -154,7 +154,15 @@ def typedStr (cols : List ColSpec) (n : Nat) (raw : Bytes) : String :=
 
 def NTH_ARGS : List Nat := [0, 1, 2, 3, 9000, 65534, 65535, 2 ^ 64 - 1]
 
-/-- ` nth=…`: `VectorIterator::nth` with boundary arguments on the first row of a single vector column. -/
+/-- Class and canonical text of one iterator item. -/
+def itemStr : Option (Except ScyllaVerif.Codec.DeErr ScyllaVerif.Cql.CqlVal) → String × String
+  | none => ("none", "none")
+  | some (.error _) => ("err", "err")
+  | some (.ok v) => ("ok", " ".intercalate (ScyllaVerif.Drive.C01.showVal v))
+
+/-- ` nth=[n:class:size_hint:class of the following next():hash of both items;…]` — `VectorIterator::nth` with
+boundary arguments on the first row of a single vector column (fixed- and variable-size elements), the iterator's
+`size_hint().0` afterwards, and the item the following `next()` yields. -/
 def nthStr (cols : List ColSpec) (rowsCount : Nat) (raw : Bytes) : String :=
   match cols, rowsCount with
   | [c], _ + 1 =>
@@ -164,17 +172,27 @@ def nthStr (cols : List ColSpec) (rowsCount : Nat) (raw : Bytes) : String :=
       | .error _ => " nth=rowerr"
       | .ok ([none], _) => " nth=rowerr"
       | .ok ([some cell], _) =>
-        match ScyllaVerif.C08V.sizeForVectorSat elt with
-        | none => " nth=var"
-        | some size =>
-          " nth=" ++ lst (NTH_ARGS.map (fun n =>
-            toString n ++ ":" ++
-            match ScyllaVerif.C08V.vecNthFixedP (fun b => ScyllaVerif.C08V.decValP utf8ok elt b) size dim n cell with
-            | .ok (none, _, _) => "none"
-            | .ok (some (.ok _), _, _) => "ok"
-            | .ok (some (.error _), _, _) => "err"
-            | .err _ => "?"
-            | .panic site => "MODEL-PANIC " ++ site))
+        let f := fun b => ScyllaVerif.C08V.decValP utf8ok elt b
+        let size := ScyllaVerif.C08V.sizeForVectorSat elt
+        " nth=" ++ lst (NTH_ARGS.map (fun n =>
+          let r := match size with
+            | some sz => ScyllaVerif.C08V.vecNthFixedP f sz dim n cell
+            | none => ScyllaVerif.C08V.vecNthVarP f n dim cell
+          toString n ++ ":" ++
+          match r with
+          | .ok (item, rem, rest) =>
+            let nx := match size with
+              | some sz => ScyllaVerif.C08V.vecNextFixedP f sz rem rest
+              | none => ScyllaVerif.C08V.vecNextVarP f rem rest
+            (match nx with
+             | .ok (item2, _, _) =>
+               let a := itemStr item
+               let b := itemStr item2
+               a.1 ++ ":" ++ toString rem ++ ":" ++ b.1 ++ ":" ++ hex64 (fnv64 (a.2 ++ "|" ++ b.2))
+             | .err _ => "?"
+             | .panic site => "MODEL-PANIC " ++ site)
+          | .err _ => "?"
+          | .panic site => "MODEL-PANIC " ++ site))
       | .ok _ => " nth=?"
     | _ => ""
   | _, _ => ""
@@ -387,9 +405,24 @@ def runTail (cap : Nat) (bs : Bytes) : String :=
     | (.ok _, _) => "err notrows"
     | _ => "err result"
 
+/-- `h <frame hex>`: `read_response_frame` alone, with the capacity its body buffer reaches. -/
+def runHeader (bs : Bytes) : String :=
+  let capS := fun (length avail : Nat) =>
+    let peak := (readBody length avail).2.2
+    if peak ≥ 65536 then toString peak else "small"
+  match parseFrame bs with
+  | .ok h => s!"hdr ok {h.flags},{h.stream},{h.opcode} len={h.body.length} cap=" ++ capS h.body.length (bs.length - 9)
+  | .error "hdr.closed" =>
+    "hdr err closed cap=" ++ capS (beNat ((bs.drop 5).take 4)) (bs.length - 9)
+  | .error k => "hdr err " ++ (k.drop 4).toString ++ " cap=small"
+
 def run (case impl : String) : String :=
   match words case with
   | "f" :: rest => runFrame rest impl
+  | ["h", hex] =>
+    match parseHex hex with
+    | some bs => runHeader bs
+    | none => "bad-case"
   | ["e", cap, hex] =>
     match cap.toNat?, parseHex hex with
     | some c, some bs => runTail c bs
